@@ -59,6 +59,13 @@ def run(tier):
             vlib.run_harness(b, ["fuzz", str(vlib.seed()), "150", fz, cpath])
             lines = [json.dumps({"id": o["id"], "res": o["res"]}, sort_keys=True) for o in vlib.read_ndjson(out)]
             lines += [json.dumps({"id": o["id"], "in": o["input"], "res": o["res"]}, sort_keys=True) for o in vlib.read_ndjson(fz)]
+            # stateful part of the corpus: the defragmenter's real-size stream and seeded operation sequences
+            st = os.path.join(d, "stream.%s.ndjson" % target)
+            vlib.run_harness(b, ["defrag-stream", st])
+            lines += [json.dumps({k: e[k] for k in ("op", "ct", "len", "k", "e", "inprog", "buflen")}, sort_keys=True) for e in vlib.read_ndjson(st)]
+            dfz = os.path.join(d, "defrag.%s.ndjson" % target)
+            vlib.run_harness(b, ["defrag-fuzz", str(vlib.seed()), "300", "20", dfz])
+            lines += [json.dumps({"id": r["id"], "steps": [[x["res"], x["inprog"], x["buflen"]] for x in r["results"]]}, sort_keys=True) for r in vlib.read_ndjson(dfz)]
             outputs[name] = lines
             e["digest"] = hashlib.sha256("\n".join(lines).encode()).hexdigest()
             rep.count(len(lines))
